@@ -171,6 +171,8 @@ def u2_names(sc):
         return {1: "samedecl" + s, 2: "samedecl" + s, "m1": "_moda", "m2": "_modb"}
     if v == "suffix":
         return {1: "public_tail" + s, 2: "_tail" + s, "m1": "_moda", "m2": "_modb"}
+    if v == "stdlibname":
+        return {1: "declone" + s, 2: "decltwo" + s, "m1": "moda", "m2": "logging"}
     if v == "suffixalias":
         return {1: "tail" + s, 2: "big_tail" + s, "m1": "moda", "m2": "modb"}
     if v == "samemodule":
@@ -201,7 +203,9 @@ def u2_files(sc, root: str) -> dict:
         files[f"{sid}/sub/deep/__init__.py"] = decl(1)
     for e in sc["exports"]:
         mod = ".".join([root, sid, "sub", "deep", nm["m1"]] if e["tgt"] == 1 or sc.get("variant") == "sharedbase" else [root, sid, "sub", nm["m2"]])
-        line = f"from {mod} import {nm[e['tgt']]}" + (f" as {e['alias']}{s}" if e["alias"] else "") + "\n"
+        line = f"from {mod} import {nm.get(e['tgt'], 'x')}" + (f" as {e['alias']}{s}" if e["alias"] else "") + "\n"
+        if sc.get("variant") == "stdlibname":      # the standard library's module, not the package's
+            line = "import logging\n"
         if sc.get("variant") == "samemodule":      # the module as a whole
             line = f"from {'.'.join([root, sid, 'sub', 'deep'])} import {nm['m1']}\n"
         files["/".join([sid, *AT_PATH[e["at"]], "__init__.py"])] += line
